@@ -162,6 +162,13 @@ def run(facts, tr, rep):
             while node[0] == "unop" and node[1] == "Not":
                 neg = not neg
                 node = peel(node[2])
+            if node[0] == "phi":
+                # `match budget { Some(b) => b.try_withdraw(), None => true }` stored in a flag (an inlined helper):
+                # the flag stands for the one call among its alternatives, the rest being constants
+                alts = [peel(x) for x in node[1]]
+                calls_ = [x for x in alts if x[0] == "call"]
+                if len(calls_) == 1 and all(x[0] in ("call", "const") for x in alts):
+                    node = calls_[0]
             if node[0] == "call":
                 ep = effective_predicate(tr, facts, node, ("should_retry", "try_withdraw"))
                 if ep and ep[0] == "should_retry":
